@@ -992,10 +992,12 @@ def _claim_on_retry(fn, start, w, c):
         if t['k'] == 'switch':
             edges = [tb for _, tb in t['targets']] + [t['otherwise']]
             cs = set(c) if isinstance(c, (set, frozenset, list, tuple)) else {c}
-            with_claim = [e for e in edges if cs & fn.reachable_blocks(e, avoid={w})]
+            from .ordq import feasible_reach
+            # (feasibly: a flag that lets the first turn skip the wait - `if !steal_now { wait }` - is false on every later turn)
+            with_claim = [e for e in edges if cs & fn.reachable_blocks(e, avoid={w}) and feasible_reach(fn, e, cs, {w})]
             if not with_claim:
                 return False
-            return all(fn.must_pass(e, {w}, cs) for e in with_claim)
+            return all(fn.must_pass(e, {w}, cs) or not feasible_reach(fn, e, {w}, cs) for e in with_claim)
         nxt = fn.succs(cur)
         if len(nxt) != 1:
             return False
@@ -1054,6 +1056,8 @@ def c04_stop(ctx):
             out.append(bad(R, key, 'the caller no longer runs jobs from the queue itself', fn=name))
             continue
         waits = set(bb for bb, t in calls(fn, 'Condvar::wait'))
+        # (a new claim starts a new episode of running the queue: the job loop of one episode ends where the next claim is tried)
+        waits |= set(bb for bb, t in calls(fn, 'SchedulerCore::claim_pending_queue'))
         rets = set(fn.exits())
         problems = []
         for r in runs:
